@@ -173,27 +173,34 @@ impl<'a> Interp<'a> {
     /// has written what the server accounts as saved (log files on disk have reached
     /// size - unsaved bytes of every segment). Deadline 2 s; never a verdict by itself.
     fn quiesce_nowait(&mut self) {
+        let _ = self.quiesce_nowait_for(2);
+    }
+
+    /// no-wait confirmation: wait until every segment's log file holds what the segment counts as saved
+    /// (size minus still buffered bytes); false = not reached within `secs`
+    fn quiesce_nowait_for(&mut self, secs: u64) -> bool {
         if !self.cfg.no_wait || self.node.is_none() {
-            return;
+            return true;
         }
-        let deadline = std::time::Instant::now() + std::time::Duration::from_secs(2);
+        let deadline = std::time::Instant::now() + std::time::Duration::from_secs(secs);
         loop {
-            let mut want = 0u64;
+            let mut settled = true;
             for pid in 1..=self.parts.len() as u32 {
-                want += self.observe(pid).iter().map(|s| s.size.saturating_sub(s.unsaved_bytes)).sum::<u64>();
+                for s in self.observe(pid) {
+                    let want = s.size.saturating_sub(s.unsaved_bytes);
+                    let f = self.dir.path.join(format!("streams/1/topics/1/partitions/{pid}/{:020}.log", s.start));
+                    let have = std::fs::metadata(&f).map(|m| m.len()).unwrap_or(0);
+                    if have < want {
+                        settled = false;
+                    }
+                }
             }
-            let have: u64 = list_files(&self.dir.path)
-                .iter()
-                .filter(|f| f.extension().map(|e| e == "log").unwrap_or(false))
-                .filter_map(|f| std::fs::metadata(f).ok())
-                .map(|m| m.len())
-                .sum();
-            if have >= want {
-                break;
+            if settled {
+                return true;
             }
             if std::time::Instant::now() > deadline {
                 self.out.count("nowait_quiesce_timeouts", 1);
-                break;
+                return false;
             }
             self.node().settle(1);
         }
